@@ -23,15 +23,40 @@ import (
 	"verif/kit"
 )
 
+// emptying modes: whole blocks end up without a single object for the consumer
+const (
+	emptyNone     = 0
+	emptyByFilter = 1 // the filter callbacks reject every element of the blocks with an odd number
+	emptyBySkip   = 2 // SkipWays: every way block (block 1, 4, ...) is skipped without decoding
+)
+
 func pipeline(n, b, bound int, filters, header bool) vexplore.Scenario {
+	return pipelineE(n, b, bound, filters, header, emptyNone)
+}
+
+func pipelineE(n, b, bound int, filters, header bool, empty int) vexplore.Scenario {
 	name := fmt.Sprintf("pipeline procs=%d blocks=%d filters=%v", n, b, filters)
+	if empty != emptyNone {
+		name += []string{"", " odd-blocks-rejected-by-filter", " way-blocks-skipped"}[empty]
+	}
+	// block of an element id (pbfscen.File: ids are 100*(block+1)+position)
+	keepID := func(id int64) bool { return empty != emptyByFilter || (id/100-1)%2 == 0 }
 	if !header {
 		// a scan resumed in the middle of a file: the stream starts with a data block
 		name += " no-header"
 	}
 	file := pbfscen.File(b, header)
 	enc := file.Encode()
-	want := file.Expected()
+	var want []osm.Object
+	for _, o := range file.Expected() {
+		if w, isWay := o.(*osm.Way); empty == emptyBySkip && isWay {
+			_ = w
+			continue
+		}
+		if keepID(o.ObjectID().Ref()) {
+			want = append(want, o)
+		}
+	}
 	return vexplore.Scenario{Name: name, Family: name, Bound: bound, RacesAreFindings: true, MaxSteps: 100000,
 		New: func() (func(), func(*vsched.Outcome) ([]vexplore.Finding, string, bool)) {
 			var col pbfscen.Collected
@@ -43,22 +68,23 @@ func pipeline(n, b, bound int, filters, header bool) vexplore.Scenario {
 				defer cancel()
 				rd := &pbfscen.Reader{Data: enc.Data, BlockOnly: true}
 				s := osmpbf.New(ctx, rd, n)
+				s.SkipWays = empty == emptyBySkip
 				if filters {
 					// a slow user callback inside the decoders
 					s.FilterNode = func(nd *osm.Node) bool {
 						vsched.Yield("filter")
 						order = append(order, fmt.Sprintf("n%d@T%d", nd.ID, vsched.ThreadID()))
-						return true
+						return keepID(int64(nd.ID))
 					}
 					s.FilterWay = func(w *osm.Way) bool {
 						vsched.Yield("filter")
 						order = append(order, fmt.Sprintf("w%d@T%d", w.ID, vsched.ThreadID()))
-						return true
+						return keepID(int64(w.ID))
 					}
 					s.FilterRelation = func(rl *osm.Relation) bool {
 						vsched.Yield("filter")
 						order = append(order, fmt.Sprintf("r%d@T%d", rl.ID, vsched.ThreadID()))
-						return true
+						return keepID(int64(rl.ID))
 					}
 				}
 				_, hdrErr = s.Header()
@@ -114,7 +140,7 @@ func pipeline(n, b, bound int, filters, header bool) vexplore.Scenario {
 
 func main() {
 	kit.Main("C02", "model_checking", func(r *kit.Run) {
-		r.Rule("scenario pipeline(procs, blocks): header + data blocks of two objects each (dense / ways / relations), reader yields at every block, filters yield per element, consumer scans to the end; " +
+		r.Rule("scenario pipeline(procs, blocks): header + data blocks of two objects each (dense / ways / relations), reader yields at every block, filters yield per element, consumer scans to the end; variants: no header (resumed stream), no filters, filters rejecting every element of the odd blocks, SkipWays (whole blocks empty for the consumer); " +
 			"every schedule with <= D deviations (delay or alternative select case) from the priority scheduler, both priority configurations; " +
 			"non-vacuous = a later block's element was decoded before an earlier block's (filters on) ; distinct_nontrivial = distinct complete operation sequences among non-vacuous executions; " +
 			"states = execution-tree nodes, transitions = visible operations, every trace is an implementation trace")
@@ -144,6 +170,16 @@ func main() {
 		sw := []cfg{{n: 2, b: 3, d: 1}, {n: 3, b: 3, d: 1}, {n: 12, b: 3, d: 1}}
 		if !r.Quick() {
 			sw = []cfg{{n: 2, b: 3, d: 2}, {n: 3, b: 3, d: 2}, {n: 12, b: 3, d: 1}, {n: 2, b: 4, d: 2, nohdr: true}}
+		}
+		// blocks that end up empty for the consumer (rejected by the filters / skipped
+		// by a flag) between blocks that do not: the order of the rest must not change
+		type ecfg struct{ n, b, d, empty int }
+		ecfgs := []ecfg{{2, 5, 1, emptyByFilter}, {3, 5, 1, emptyByFilter}, {2, 5, 1, emptyBySkip}, {12, 5, 1, emptyBySkip}}
+		if !r.Quick() {
+			ecfgs = []ecfg{{2, 5, 2, emptyByFilter}, {3, 6, 2, emptyByFilter}, {4, 6, 1, emptyByFilter}, {12, 5, 1, emptyByFilter}, {2, 5, 2, emptyBySkip}, {3, 6, 2, emptyBySkip}, {12, 5, 1, emptyBySkip}}
+		}
+		for _, c := range ecfgs {
+			scs = append(scs, pipelineE(c.n, c.b, c.d, true, true, c.empty))
 		}
 		for _, c := range sw {
 			sc := pipeline(c.n, c.b, c.d, true, !c.nohdr)
